@@ -35,6 +35,9 @@ PARSES_OK = 're.all'
 # `pre_n` lies inside `pre` next to the non-optional `pre_l`; `post_n1` and `post_n2` lie in the two alternatives of `post` (never both); `dev_n` inside `dev`
 SKELETON = "^<re>[(epoch)!]?(release)[(pre:<re>(pre_l)<re>[(pre_n)]?)]?[(post:{-(post_n1)|<re>(post_l)<re>[(post_n2)]?})]?[(dev:<re>(dev_l)<re>[(dev_n)]?)]?[+(local)]?$"
 GROUPS = {"epoch": DIGITS, "release": RELEASE, "pre_n": DIGITS, "post_n1": DIGITS, "post_n2": DIGITS, "dev_n": DIGITS,
-          "pre_l": alt("a", "b", "c", "rc", "alpha", "beta", "pre", "preview")}
+          "pre_l": alt("a", "b", "c", "rc", "alpha", "beta", "pre", "preview"),
+          # the local text: runs of ASCII letters and digits separated by single `-`, `_` or `.` — what the contract of parse_local_segments requires
+          # (unit pep440_local: local_text_ok), so that the segment constructor's `unwrap()` cannot fail
+          "local": f'(re.++ (re.+ {LOCALCH}) (re.* (re.++ (re.union (str.to_re "-") (str.to_re "_") (str.to_re ".")) (re.+ {LOCALCH}))))'}
 UNIQUE_WHY = ("from_str reads each number group on its own and tests `post` / `dev` for presence only, so it does not rely on a unique decomposition of the "
               "whole text; what it relies on is which groups can be present together, read off the skeleton")
